@@ -1611,6 +1611,131 @@ fn histories(cx: &mut Cx)
 	}
 }
 
+// ------------------------------------------------------------------------------------------------
+// uses that MIX names of different origin in one expression: an imported name (valued, or only declared so far by the includer)
+// together with constants / labels of the using file itself. Every name is resolved independently by the scope rules, the
+// statement emits the value of the expression over those values — also when the statement has to wait for the imported name and
+// the includer (or a file between) owns other constants with the same names as the using file's own. Templates x random names,
+// values, placements; oracle = expected bytes; correspondence = whole-pipeline model (`asm run`). Input: `proj …` (as C06).
+
+fn multi_name_project(rng: &mut Rng) -> (crate::asm::Project, Vec<u8>, String)
+{
+	let pool = ["base", "step", "size", "off", "loop", "done", "k", "v"];
+	let mut names: Vec<&str> = pool.to_vec();
+	let mut take = |rng: &mut Rng| -> String {let i = rng.below(names.len() as u64) as usize; names.remove(i).to_owned()};
+	let (base, step, third) = (take(rng), take(rng), take(rng));
+	let b = 0x1000 + rng.below(0xE000) as i64;
+	let si = 1 + rng.below(0xFF) as i64;
+	let so = si + 1 + rng.below(0x700) as i64;      // the includer's unrelated value of the same name
+	let sm = so + 1 + rng.below(0x700) as i64;      // and that of a file in between
+	let t = 1 + rng.below(0xFFF) as i64;
+	let three_files = rng.chance(1, 3);
+	// the includer has only DECLARED `base` when the include is processed; with a file in between the import is always valued (a statement
+	// waits one level up only: a declared-only name passed through two levels is diagnosed by the implementation and by the model)
+	let deferred_import = !three_files && rng.chance(3, 4);
+	let clash = rng.below(4);                         // 0: none, 1: constant, 2: label, 3: constant after the include
+	let third_kind = rng.below(4);                    // 0: unused, 1: own constant, 2: own label, 3: second import (valued)
+	let step_below = rng.chance(1, 2);                // own constant defined below the use (forward reference)
+	let form = rng.below(7);
+
+	// the using file
+	let mut inner = String::new();
+	let mut image: Vec<u8> = Vec::new();
+	inner.push_str(&format!(".import {base};\n"));
+	if third_kind == 3 {inner.push_str(&format!(".import {third};\n"));}
+	if third_kind == 2 {inner.push_str(&format!("{third}:\n"));}
+	let tv = match third_kind {0 => 0, 2 => BASE as i64, _ => t};
+	if third_kind == 1 && !step_below {inner.push_str(&format!(".const {third}, {t};\n"));}
+	if !step_below {inner.push_str(&format!(".const {step}, {si};\n"));}
+	let sum = b + si;
+	let (text, bytes): (String, Vec<u8>) = match (form, third_kind)
+	{
+		(0, _) => (format!(".du32 {base} + {step};"), (sum as u32).to_le_bytes().to_vec()),
+		(1, _) => (format!(".du16 ({base} + {step}) & 0xFFFF;"), ((sum & 0xFFFF) as u16).to_le_bytes().to_vec()),
+		(2, _) => (format!(".du8 ({step} + {base}) & 0xFF;"), vec![(sum & 0xFF) as u8]),
+		(3, _) => (format!("MOVS R0, ({base} + {step}) & 0xFF;"), vec![(sum & 0xFF) as u8, 0x20]),
+		(4, 0) => (format!(".du32 {step} * 2 + {base};"), ((b + 2 * si) as u32).to_le_bytes().to_vec()),
+		(4, _) => (format!(".du32 {base} + {step} + {third};"), ((sum + tv) as u32).to_le_bytes().to_vec()),
+		(5, 0) => (format!(".du32 {base} - {step};"), ((b - si) as u32).to_le_bytes().to_vec()),
+		(5, _) => (format!(".du32 {step} + {base} * 2 - ({third} & 0xFF);"), ((si + 2 * b - (tv & 0xFF)) as u32).to_le_bytes().to_vec()),
+		(_, _) => (format!(".du32 {base} | ({step} << 16);"), ((b | si << 16) as u32).to_le_bytes().to_vec()),
+	};
+	inner.push_str(&text);
+	inner.push('\n');
+	image.extend_from_slice(&bytes);
+	// a neighbouring statement that uses the own name alone: same value
+	inner.push_str(&format!(".du16 {step};\n"));
+	image.extend_from_slice(&(si as u16).to_le_bytes());
+	if step_below {inner.push_str(&format!(".const {step}, {si};\n"));}
+	if third_kind == 1 && step_below {inner.push_str(&format!(".const {third}, {t};\n"));}
+
+	// the includer(s)
+	let mut outer = format!(".addr 0x{BASE:08X};\n");
+	if third_kind == 3 {outer.push_str(&format!(".const {third}, {t};\n.export {third};\n"));}
+	if deferred_import {outer.push_str(&format!(".global {base};\n"));} else {outer.push_str(&format!(".const {base}, {b};\n.global {base};\n"));}
+	match clash {1 => outer.push_str(&format!(".const {step}, {so};\n")), 2 => outer.push_str(&format!("{step}:\n")), _ => ()}
+	if clash != 0 && third_kind == 1 {outer.push_str(&format!(".const {third}, {};\n", t + 77));}
+	let mut files: Vec<(String, Vec<u8>)> = Vec::new();
+	if three_files
+	{
+		// a file in between: passes `base` (and the second import) on, owns its own `step`
+		let mut mid = format!(".import {base};\n");
+		if third_kind == 3 {mid.push_str(&format!(".import {third};\n"));}
+		if clash != 0 {mid.push_str(&format!(".const {step}, {sm};\n"));}
+		mid.push_str(".include \"inner.asm\";\n");
+		if clash == 0 && rng.chance(1, 2) {mid.push_str(&format!(".const {step}, {sm};\n"));}
+		outer.push_str(".include \"mid.asm\";\n");
+		files.push(("mid.asm".to_owned(), mid.into_bytes()));
+	}
+	else {outer.push_str(".include \"inner.asm\";\n");}
+	if clash == 3 {outer.push_str(&format!(".const {step}, {so};\n"));}
+	if deferred_import {outer.push_str(&format!(".const {base}, {b};\n"));}
+	files.insert(0, ("main.asm".to_owned(), outer.into_bytes()));
+	files.push(("inner.asm".to_owned(), inner.into_bytes()));
+	let shape = format!("{} files, import {}, includer's same-named {}, third name {}, own constant {}, form {form}", if three_files {3} else {2},
+		if deferred_import {"declared only"} else {"valued"}, ["none", "constant", "label", "constant below the include"][clash as usize],
+		["none", "own constant", "own label", "second import"][third_kind as usize], if step_below {"below the use"} else {"above the use"});
+	(crate::asm::Project{files}, image, shape)
+}
+
+fn check_multi_name(cx: &mut Cx, p: &crate::asm::Project, want: Option<&[u8]>, shape: &str)
+{
+	let dir = cx.work.join("mixed");
+	p.write(&dir);
+	let input = p.to_input();
+	match crate::asm::run_real(&dir)
+	{
+		Err(e) => cx.report.oracle_fail(input.clone(), format!("panic: {e}")),
+		Ok(o) =>
+		{
+			let got: Vec<u8> = o.image.iter().filter(|(a, _)| **a >= BASE).map(|(_, b)| *b).collect();
+			cx.report.case(Some(&hex(&got)));
+			if !(o.assemble_ok && o.close_err.is_none() && o.finalize && o.errors.is_empty())
+			{
+				cx.report.oracle_fail(input.clone(), format!("a valid project ({shape}) is refused: {:?}", o.errors.iter().take(3).collect::<Vec<_>>()));
+			}
+			else if let Some(w) = want
+			{
+				if got != w {cx.report.oracle_fail(input.clone(), format!("{shape}: every name resolved by the scope rules gives {}, the image holds {}", hex(w), hex(&got)));}
+			}
+		},
+	}
+	crate::asm::check_asm_model(cx, p, &dir);
+}
+
+fn multi_name(cx: &mut Cx)
+{
+	let n = if cx.thorough() {30_000} else {2_500};
+	for _ in 0..n
+	{
+		let mut rng = cx.rng.fork();
+		let (p, image, shape) = multi_name_project(&mut rng);
+		cx.report.hit(&format!("mixed-name use: {}", shape.split(", ").take(3).collect::<Vec<_>>().join(", ")));
+		check_multi_name(cx, &p, Some(&image), &shape);
+	}
+	cx.report.hit_n("mixed-name projects", n as u64);
+}
+
 pub fn run(_id: &str, cx: &mut Cx)
 {
 	cx.report.rule = "projects = include trees (depth <= 4, fan-out <= 3, <= 9 files) of .const/label/.global/.import/.export/.include statements and uses, a use being .du32 <name> or an instruction whose operand goes through one of the evaluator arms (SVC, UDF.N, UDF.W, RSBS / MOVS, CMP / B, BKPT / LDRB / LDR literal, LDR reg+offset) with every name confined to a value class encodable in its spellings, written to disk and assembled by the real Context; \
@@ -1619,6 +1744,15 @@ non-trivial = at least one used value or one diagnostic observed; distinct = dis
 	let mut serial = 0u64;
 	if let Some(input) = cx.replay.clone()
 	{
+		if input.starts_with("proj ")
+		{
+			match crate::asm::Project::from_input(&input)
+			{
+				Some(p) => check_multi_name(cx, &p, None, "replay"),
+				None => cx.report.oracle_fail(input, "unrecognised replay input"),
+			}
+			return;
+		}
 		if let Some(rest) = input.strip_prefix("hist ")
 		{
 			match Project::decode(rest)
@@ -1650,6 +1784,7 @@ non-trivial = at least one used value or one diagnostic observed; distinct = dis
 	}
 	table_api(cx);
 	histories(cx);
+	multi_name(cx);
 	let sc = scenarios();
 	cx.report.hit_n("scenario projects", sc.len() as u64);
 	for p in &sc {assert!(p.is_tree(), "scenario is not a tree: {}", p.encode());}
